@@ -154,63 +154,75 @@ class RefMap:
 
 
 class RefVec:
+    """python list of [value, decor]; decor (Array only) is what `push`/`insert` decorate the value with:
+    "n" = no prefix (first element of an empty array), "s" = one space, "d" = default (extend);
+    `replace` keeps the decor of the slot, a stable sort moves value and decor together."""
+
     def __init__(self, container):
         self.c = container
         self.l = []
+
+    def vals(self):
+        return [x[0] for x in self.l]
 
     def op(self, p):
         o = p[0]
         l = self.l
         arr = self.c == "array"
         if o == "push":
-            l.append(int(p[1]))
+            l.append([int(p[1]), "s" if l else "n"])
             return "ok"
         if o == "ins" and arr:
             i = int(p[1])
             if i > len(l):
                 return "panic"
-            l.insert(i, int(p[2]))
+            l.insert(i, [int(p[2]), "s" if l else "n"])
             return "ok"
         if o == "repl" and arr:
             i = int(p[1])
             if i >= len(l):
                 return "panic"
-            old = l[i]
-            l[i] = int(p[2])
+            old = l[i][0]
+            l[i] = [int(p[2]), l[i][1]]
             return vt(old)
         if o == "rem":
             i = int(p[1])
             if i >= len(l):
                 return "panic"
-            old = l.pop(i)
+            old = l.pop(i)[0]
             return vt(old) if arr else "ok"
         if o in ("get", "getmut"):
             i = int(p[1])
-            return vt(l[i]) if i < len(l) else "none"
+            return vt(l[i][0]) if i < len(l) else "none"
         if o == "len":
             return str(len(l))
         if o == "empty":
             return "t" if not l else "f"
         if o == "iter":
-            return jn([vt(x) for x in l])
+            return jn([vt(x) for x in self.vals()])
         if o == "clear":
             l.clear()
             return "ok"
         if o == "retain":
-            self.l = [x for x in l if x % 2 == 0]
+            self.l = [x for x in l if x[0] % 2 == 0]
             return "ok"
         if o == "sortby" and arr:
-            l.sort()
+            l.sort(key=lambda x: x[0])        # stable
             return "ok"
         if o == "extend":
-            l.extend(int(x) for x in p[1:])
+            l.extend([int(x), "d"] for x in p[1:])
             return "ok"
         return "na"
 
     def final(self):
-        it = jn([vt(x) for x in self.l])
+        it = jn([vt(x) for x in self.vals()])
+        if self.c == "array":
+            pre = lambda i, d: " " if d == "s" or (d == "d" and i > 0) else ""
+            text = "[" + ",".join(pre(i, d) + str(v) for i, (v, d) in enumerate(self.l)) + "]"
+        else:
+            text = "[" + ", ".join("{ v = %d }" % v for v, _ in self.l) + "]"
         return {"len": str(len(self.l)), "empty": "t" if not self.l else "f", "iter": it, "into": it,
-                "print": list(self.l)}
+                "print": h(text)}
 
 
 class RefDict:
@@ -296,28 +308,6 @@ def split_case(case):
     return container, ops
 
 
-def parse_vec_print(container, hx):
-    """the printed array as a list of integers (formatting of the elements is not part of the property)"""
-    try:
-        text = unh(hx).decode()
-        if not (text.startswith("[") and text.endswith("]")):
-            return None
-        body = text[1:-1].strip()
-        if not body:
-            return []
-        out = []
-        for part in body.split(","):
-            part = part.strip()
-            if container == "aot":
-                if not (part.startswith("{ v = ") and part.endswith(" }")):
-                    return None
-                part = part[6:-2]
-            out.append(int(part))
-        return out
-    except Exception:
-        return None
-
-
 def oracle(case, out):
     """first place where the implementation's output differs from the reference's:
     (where, got, want) or None. `where` is the op's name or `final.<field>`."""
@@ -339,11 +329,6 @@ def oracle(case, out):
         if field not in want:
             continue
         got = fin.get(field)
-        if field == "print" and isinstance(want[field], list):
-            got_l = parse_vec_print(container, got)
-            if got_l != want[field]:
-                return ("final.print", f"printed {unh(got).decode(errors='replace')!r}", str(want[field]))
-            continue
         if got != want[field]:
             show = (lambda x: repr(unh(x).decode(errors="replace"))) if field == "print" else (lambda x: x)
             return ("final." + field, f"final {field} is {show(got)}", show(want[field]))
@@ -366,6 +351,8 @@ def cause_of(container, where):
         return "entry() is Occupied for an Item::None placeholder"
     if container == "table" and where == "final.into":
         return "Table::into_iter yields Item::None placeholders"
+    if where in ("iter", "keys", "values", "final.iter", "final.into", "final.print"):
+        return f"{container}: iteration order or content differs from the reference"
     return f"{container}: {where}"
 
 # ---------------------------------------------------------------------------------------------
@@ -470,6 +457,112 @@ REGRESSIONS = [
 ]
 
 
+WIDE_KEYS = list(KEYS) + [f"k{i:02}" for i in range(40)]      # string order = model key index order
+
+
+def gen_wide(rng, container):
+    """a container of 21-40 entries with few distinct values (ties), then every ordering-sensitive call:
+    sort by value (ties must keep their order), sort by key, retain, removal in the middle, re-insertion of
+    an existing key, and the final iteration / into_iter / printed text"""
+    ref = reference(container)
+    ops = []
+
+    def do(o):
+        ops.append(o)
+        ref.op(o.split(" "))
+
+    nvals = rng.choice([2, 3, 3, 4])
+    val = lambda: str(rng.randrange(nvals))
+    n = rng.randrange(21, 41)
+    if container in ("array", "aot"):
+        while len(ref.l) < n:
+            r = rng.random()
+            ln = len(ref.l)
+            if r < 0.45 or container == "aot" and r < 0.7:
+                do(f"push {val()}")
+            elif r < 0.7:
+                do(f"ins {rng.randrange(ln + 1)} {val()}")
+            else:
+                do("extend " + " ".join(val() for _ in range(rng.randrange(1, 5))))
+        tail = (["sortby"] * 4 + ["retain", "iter", "len"] if container == "array" else ["retain", "iter", "len"])
+        for _ in range(rng.randrange(3, 12)):
+            ln = len(ref.l)
+            o = rng.choice(tail + ["rem", "rem", "repl", "ins", "push", "get"])
+            if o == "rem" and ln:
+                do(f"rem {rng.randrange(ln)}")
+            elif o == "repl" and ln and container == "array":
+                do(f"repl {rng.randrange(ln)} {val()}")
+            elif o == "ins" and container == "array":
+                do(f"ins {rng.randrange(ln + 1)} {val()}")
+            elif o == "push":
+                do(f"push {val()}")
+            elif o == "get" and ln:
+                do(f"get {rng.randrange(ln)}")
+            elif o in ("sortby", "retain", "iter", "len"):
+                do(o)
+        return f"{container} " + ";".join(ops)
+    keys = WIDE_KEYS[:]
+    rng.shuffle(keys)
+    keys = keys[:n]
+    maplike = container in MAPLIKE
+    like = container in ("tablelike", "inlinelike", "docinline")
+    ismap = container.startswith("map")
+    i = 0
+    while i < len(keys):
+        r = rng.random()
+        if r < 0.2 and not like:
+            m = rng.randrange(1, 6)
+            do("extend " + " ".join(f"{k} {val()}" for k in keys[i:i + m]))
+            i += m
+            continue
+        k = keys[i]
+        i += 1
+        if r < 0.75:
+            do(f"ins {k} {val()}")
+        elif r < 0.82 and maplike and not like:
+            do(f"insf {k} {val()}")
+        elif r < 0.9:
+            do(f"entry {k} {val()}")
+        elif maplike:
+            do(f"idxset {k} {val()}")
+        else:
+            do(f"ins {k} {val()}")
+    if ismap:
+        pool = ["retain", "rem", "rem", "rem", "ins", "iter", "keys", "values", "entry", "extend"]
+    elif like:
+        pool = ["sort", "rem", "rem", "ins", "iter", "keys", "entry", "idxmut", "len"]
+    else:
+        pool = ["sortby"] * 4 + ["sort", "retain", "rem", "rem", "reme", "ins", "insf", "iter", "keys", "entry",
+                                 "idxmut", "extend", "len"]
+    present = lambda: [k for k in WIDE_KEYS if ref.get(k) is not None] if maplike else list(ref.d.keys())
+    for _ in range(rng.randrange(3, 12)):
+        o = rng.choice(pool)
+        have = present()
+        anyk = rng.choice(have) if have and rng.random() < 0.8 else rng.choice(WIDE_KEYS)
+        if o in ("rem", "reme", "idxmut"):
+            do(f"{o} {anyk}")
+        elif o in ("ins", "insf", "entry"):
+            do(f"{o} {anyk} {val()}")
+        elif o == "extend":
+            do("extend " + " ".join(f"{rng.choice(have) if have and rng.random() < 0.5 else rng.choice(WIDE_KEYS)} {val()}" for _ in range(rng.randrange(1, 4))))
+        else:
+            do(o)
+    return f"{container} " + ";".join(ops)
+
+
+def wide_regressions():
+    """24 keys k00..k23 with value (i*7)%3 (resp. 24 elements), then the value-only sort: ties keep their order"""
+    kv = [(f"k{i:02}", (i * 7) % 3) for i in range(24)]
+    ins = ";".join(f"ins {k} {v}" for k, v in kv)
+    out = [f"table {ins};sortby;iter", f"inline {ins};sortby;iter",
+           f"table {ins};sort;retain;rem k12;reme k00;iter", f"inline {ins};sort;retain;rem k12;reme k00;iter",
+           # the one undecorated element (first push) sits in the middle of its tie group after the inserts at 0
+           "array push 1;" + ";".join(f"ins 0 {(i * 7) % 3}" for i in range(23)) + ";sortby;iter",
+           "aot " + ";".join(f"push {(i * 7) % 3}" for i in range(24)) + ";retain;rem 3;iter",
+           f"mapsorted {ins};retain;rem k12;iter", f"mapinsertion {ins};retain;rem k12;iter"]
+    return out
+
+
 def gen(ctx):
     rng = ctx.rng
     quick = ctx.tier == "quick"
@@ -478,12 +571,20 @@ def gen(ctx):
     share = {"table": 5, "tablelike": 2, "inline": 4, "inlinelike": 2, "docinline": 1, "array": 3, "aot": 1,
              "mapsorted": 2, "mapinsertion": 2}
     tot = sum(share.values())
-    cases = list(REGRESSIONS)
+    cases = list(REGRESSIONS) + wide_regressions()
     for c, s in share.items():
         for i in range(total * s // tot):
             n = rng.randrange(1, 31) if (quick or rng.random() < 0.8) else rng.randrange(31, maxlen + 1)
             # a third of the map-like histories never index mutably: no placeholder can exist
             cases.append(gen_history(rng, c, n, placeholders=not (c in MAPLIKE and i % 3 == 0)))
+    # wide stream: 21-40 entries over a-d + k00..k39 with many equal values
+    wide_total = 3000 if quick else 20000
+    wshare = {"table": 6, "tablelike": 1, "inline": 5, "inlinelike": 1, "array": 4, "aot": 1, "mapsorted": 2,
+              "mapinsertion": 2}
+    wtot = sum(wshare.values())
+    for c, s in wshare.items():
+        for i in range(wide_total * s // wtot):
+            cases.append(gen_wide(rng, c))
     return list(dict.fromkeys(cases))
 
 
@@ -555,29 +656,49 @@ def run(ctx):
             if first is None or len(c) < len(first[0]):
                 first = (c, i, m)
     nviol = sum(len(v) for v in classes.values())
+    all_regs = REGRESSIONS + wide_regressions()
+    # the wide stream: how often an ordering-sensitive call met 21 or more entries
+    wide = {}
+    big_calls = {}
+    for c in cases:
+        container, ops = split_case(c)
+        if not any(k in c for k in (" k0", " k1", " k2", " k3")) and not (container in ("array", "aot") and len(ops) >= 15):
+            continue
+        ref = reference(container)
+        hit = False
+        for o in ops:
+            p = o.split(" ")
+            size = len(ref.l) if container in ("array", "aot") else (len(ref.entries()) if container in MAPLIKE else len(ref.d))
+            if size >= 21 and p[0] in ("sortby", "sort", "retain", "rem", "reme"):
+                big_calls[f"{container}:{p[0]}"] = big_calls.get(f"{container}:{p[0]}", 0) + 1
+                hit = True
+            ref.op(p)
+        if hit:
+            wide[container] = wide.get(container, 0) + 1
     # one violation per root cause: classes that one code change would repair are reported together,
     # with a fixed regression history as witness when one of them fails (stable across seeds)
     causes = {}
     for (container, where), lst in sorted(classes.items()):
         causes.setdefault(cause_of(container, where), []).extend((c, v, container, where) for c, v in lst)
     for cause, lst in sorted(causes.items()):
-        reg = [x for x in lst if x[0] in REGRESSIONS]
+        reg = [x for x in lst if x[0] in all_regs]
         if reg:
-            case, verdict, container, where = min(reg, key=lambda x: REGRESSIONS.index(x[0]))
+            case, verdict, container, where = min(reg, key=lambda x: all_regs.index(x[0]))
         else:
             case, verdict, container, where = min(lst, key=lambda x: (len(split_case(x[0])[1]), len(x[0]), x[0]))
         _, ops = split_case(case)
 
-        def fails(cand, container=container, where=where):
+        def fails(cand, container=container, cause=cause):
             cc = f"{container} " + ";".join(cand)
             rc, out, _ = run_lines(binary_for(cc), "c16", [cc])
             if len(out) != 1:
                 return False
             vv = oracle(cc, out[0])
-            return vv is not None and vv[0] == where
+            return vv is not None and cause_of(container, vv[0]) == cause
 
-        if len(ops) > 1 and not reg:
-            ops = ddmin(ops, fails, max_steps=300)
+        # shrink by dropping calls (deterministic, so the witness of a fixed regression history stays fixed)
+        if len(ops) > 1:
+            ops = ddmin(ops, fails, max_steps=1500)
         wit = f"{container} " + ";".join(ops)
         rc, out, _ = run_lines(binary_for(wit), "c16", [wit])
         got = out[0] if len(out) == 1 else "?"
@@ -597,14 +718,17 @@ def run(ctx):
             ctx.violation(f"obligation no longer checks: {n}", {"unchecked": n, "detail": d[:1500], "searched": f"{len(cases)} histories against the reference ordered map / vector"}, concrete=False)
     ctx.cov.update({
         "evaluations": len(cases), "distinct_nontrivial": len(nontriv),
-        "rule": "random histories of API calls (length 1-30, thorough up to 200) over keys a-d (2-4 of them in use, `a` twice as likely) and values 0-9, per container: Table, Table through dyn TableLike, InlineTable, InlineTable through dyn TableLike, the inline table doc[\"t\"][\"a\"] creates, Array, ArrayOfTables, toml::Map sorted (default build) and insertion-ordered (preserve_order build); a third of the map-like histories never index mutably; vector indexes 90% in range; plus fixed regression histories. non-trivial = at least 3 calls with at least one key/index argument",
-        "samples": [cases[0], cases[len(REGRESSIONS) + 1], cases[len(cases) // 2], cases[-1]],
+        "rule": "random histories of API calls (length 1-30, thorough up to 200) over keys a-d (2-4 of them in use, `a` twice as likely) and values 0-9, per container: Table, Table through dyn TableLike, InlineTable, InlineTable through dyn TableLike, the inline table doc[\"t\"][\"a\"] creates, Array, ArrayOfTables, toml::Map sorted (default build) and insertion-ordered (preserve_order build); a third of the map-like histories never index mutably; vector indexes 90% in range; plus fixed regression histories; plus the wide stream (see wide_rule). non-trivial = at least 3 calls with at least one key/index argument",
+        "samples": [cases[0], cases[len(all_regs) + 1], cases[len(cases) // 2], cases[-1]],
         "histories_per_container": hist_cont, "calls_per_operation": dict(sorted(hist_ops.items())),
         "history_length_histogram": {str(k): v for k, v in sorted(lens.items())},
         "histories_with_placeholders": with_placeholder,
+        "wide_histories_per_container": wide,
+        "wide_rule": "wide stream: 21-40 entries over keys a-d + k00..k39 (vectors: 21-40 elements) with 2-4 distinct values, then 3-11 of sortby (value-only comparator: ties) / sort / retain / rem / remove_entry / re-insert / idxmut / extend; counted when such a call met >= 21 entries",
+        "ordering_calls_on_21_or_more_entries": dict(sorted(big_calls.items())),
         "histories_deviating_from_reference": nviol,
         "deviation_classes": {f"{k[0]}:{k[1]}": len(v) for k, v in sorted(classes.items())},
         "traces_validated_against_impl": len(cases), "disagreements": ndis,
-        "oracles": ["every call's return value and the final observation (len, is_empty, iteration, get of every key, into_iter, printed text) = reference ordered map with reserved positions (python list), python list for vectors, python dict for toml::Map",
+        "oracles": ["every call's return value and the final observation (len, is_empty, iteration, get of every key, into_iter, printed text) = reference ordered map with reserved positions (python list), python list for vectors (with the element decoration, so the printed array is compared exactly), python dict for toml::Map",
                     "model driver = implementation on every history"],
     })
